@@ -15,11 +15,9 @@ def sh(cmd, cwd, timeout=1500):
 
 def main():
     prop, m = sys.argv[1], sys.argv[2]
-    src = "/tmp/mut/%s/_out" % prop
-    if m not in ("A", "B"):
-        src_extra = glob.glob("%s/extra_%s" % (src, m))
-        if src_extra:
-            src = src_extra[0]
+    root = os.environ.get("MUT_ROOT", "/var/tmp/mut2")
+    base = subprocess.run("git -C /repo rev-parse --short HEAD", shell=True, text=True, stdout=subprocess.PIPE).stdout.strip()
+    src = "%s/%s/_out" % (root, prop)
     diff = os.path.join(src, "%s.diff" % m)
     meta = json.load(open(os.path.join(src, "%s.json" % m)))
     demo_dir = os.path.join(src, "%s_demo" % m)
@@ -29,10 +27,10 @@ def main():
         return 2
     run = re.search(r"-run\s+'?\"?([A-Za-z0-9_|^$]+)", meta.get("demo_cmd", ""))
     runname = run.group(1) if run else "."
-    wt = "/tmp/confirm/%s_%s" % (prop, m)
+    wt = "/var/tmp/confirm/%s_%s" % (prop, m)
     subprocess.run("git -C /repo worktree remove --force %s 2>/dev/null; rm -rf %s" % (wt, wt), shell=True)
-    os.makedirs("/tmp/confirm", exist_ok=True)
-    rc, out = sh("git -C /repo worktree add -q --detach %s 4027f26" % wt, "/")
+    os.makedirs("/var/tmp/confirm", exist_ok=True)
+    rc, out = sh("git -C /repo worktree add -q --detach %s %s" % (wt, base), "/")
     if rc != 0:
         print(prop, m, "worktree failed", out)
         return 2
@@ -85,13 +83,13 @@ def main():
                 shutil.copyfile(os.path.join(demo_dir, f), os.path.join(dst, f))
             json.dump({"property": prop, "summary": meta.get("summary"), "needs": meta.get("needs"),
                        "origin": "independent sub-agent given only the property text and a scratch worktree",
-                       "confirmed_by": "tools/confirm_mutant.py in a scratch worktree of /repo@4027f26: demo passes on clean tree; `go build ./... && go test -vet=off -count=1 ./...` passes with patch; demo fails with patch",
+                       "confirmed_by": "tools/confirm_mutant.py in a scratch worktree of /repo@%s: demo passes on clean tree; `go build ./... && go test -vet=off -count=1 ./...` passes with patch; demo fails with patch" % base,
                        "demo_cmd": "place the *_test.go file in %s/ of a checkout, then: %s" % (",".join(dirs), demo),
                        "demo_failure_tail": out3[-800:]},
                       open(os.path.join(dst, "meta.json"), "w"), indent=1)
         print(prop, m, "CONFIRMED" if ok else "NOT CONFIRMED", json.dumps({k: v for k, v in result.items() if k.endswith("pass") or k.endswith("mutant") or k == "demo_clean_pass"}))
         if not ok:
-            json.dump(result, open("/tmp/confirm/%s_%s.fail.json" % (prop, m), "w"), indent=1)
+            json.dump(result, open("/var/tmp/confirm/%s_%s.fail.json" % (prop, m), "w"), indent=1)
         return 0 if ok else 1
     finally:
         subprocess.run("git -C /repo worktree remove --force %s; rm -rf %s" % (wt, wt), shell=True)
